@@ -14,7 +14,7 @@ BUDGET = {
     "quick": {"runs": 5000, "time_cap": 150, "determinism_sample": 40, "shrink_runs": 300},
     "thorough": {"runs": 90000, "time_cap": 1500, "determinism_sample": 300, "shrink_runs": 600},
 }
-BOUNDS = "<=3 handles per process, <=12 operations per handle, contents up to ~70 kB (sizes biased to 0, 1, 4096+-17, 8192+-17, 12288+-17, 16384+-17, 2-3 buffers), <=40 explicit chunk sizes (optionally cycled), one writer per path"
+BOUNDS = "quick: <=3 handles per process, <=12 operations per handle (thorough: <=4 handles, <=25 operations), contents up to ~70 kB (sizes biased to 0, 1, 4096+-17, 8192+-17, 12288+-17, 16384+-17, 2-3 buffers), <=40 explicit chunk sizes (optionally cycled), one writer per path"
 RULE = ("each run = one seeded scenario: 1-3 handles (regular file / pipe-like path / stdin, or writer paths with "
         "modes r,w,a,x on existing/missing files), an interleaved operation list, a read(2) chunk schedule for "
         "pipe-like descriptors and a way of ending (normal, runtime error, exit(n), SIGKILL at a chosen call); "
@@ -58,7 +58,8 @@ def _is_text(spec):
 
 
 def gen_read(rng, tier):
-    nh = rng.weighted([(5, 1), (3, 2), (2, 3)])
+    deep = tier == "thorough"
+    nh = rng.weighted([(5, 1), (3, 2), (2, 3), (2 if deep else 0, 4)])
     handles = []
     have_stdin = False
     for i in range(nh):
@@ -69,7 +70,7 @@ def gen_read(rng, tier):
     datas = [content.expand(h["content"]) for h in handles]
     cursors = [0] * nh
     closed = [False] * nh  # no further ops generated (after a possibly-error op on binary data)
-    counts = [rng.range(1, 12) for _ in range(nh)]
+    counts = [rng.range(1, 25 if deep else 12) for _ in range(nh)]
     done = [0] * nh
     past_eof = [0] * nh
     ops = []
@@ -161,7 +162,8 @@ def wdata_bytes(d):
 
 
 def gen_write(rng, tier):
-    nh = rng.weighted([(5, 1), (3, 2), (2, 3)])
+    deep = tier == "thorough"
+    nh = rng.weighted([(5, 1), (3, 2), (2, 3), (2 if deep else 0, 4)])
     handles = []
     for i in range(nh):
         initial = None
@@ -173,7 +175,7 @@ def gen_write(rng, tier):
     ops = []
     pending = []
     for i in range(nh):
-        pending += [i] * rng.range(1, 10)
+        pending += [i] * rng.range(1, 20 if deep else 10)
     rng.shuffle(pending)
     for h in pending:
         if handles[h]["mode"] == "r":
